@@ -155,6 +155,15 @@ def _quantifier_conds(c: Term, ev=None):
 def _items_gen(pat: Term, it: Term):
     """`for k, v in d.items()` reads d[k] for every key k of d: (k, d, {v: d[k]}) or None.
     `for i, x in enumerate(S)` (with S indexable) reads S[i] for every position: (i, range(len(S)), {x: S[i]})."""
+    if it[0] == "call" and it[1] == "enumerate" and pat[0] == "tuplelit" and len(pat[1]) == 2 and pat[1][0][0] == "var" and (
+            (len(it[2]) == 2 and not it[3]) or (len(it[2]) == 1 and len(it[3]) == 1 and it[3][0][0] == "start")):
+        # enumerate(S, start=k): the counter is the position plus k -- (i, range(len(S)), {x: S[i], counter: i + k})
+        i, x = pat[1]
+        S = it[2][0]
+        k_ = it[2][1] if len(it[2]) == 2 else it[3][0][1]
+        if k_[0] == "const" and isinstance(k_[1], int) and x[0] == "var" and S[0] in ("var", "attr", "index", "comp", "call", "meth", "listlit", "tuplelit"):
+            pos = ("var", "%pos_of_" + str(x[1]).lstrip("%"))
+            return pos, ("call", "range", (("len", S),), ()), {x: ("index", S, pos), i: (("op", "+", pos, k_) if k_[1] else pos)}
     if it[0] == "call" and it[1] == "enumerate" and len(it[2]) == 1 and not it[3] and pat[0] == "tuplelit" and len(pat[1]) == 2 and pat[1][0][0] == "var":
         i, x = pat[1]
         S = it[2][0]
@@ -1376,7 +1385,14 @@ def _witness_nonempty_axioms(g, wit: list, sa: SetAlg) -> list:
                 ws.append(v)
     out = []
     seen = set()
-    for at in atoms_of(g):
+    all_atoms = list(atoms_of(g))
+    # plain collections: (e in T) -> nonempty(T) for every membership atom and every emptiness atom about the same term T
+    for at in all_atoms:
+        if isinstance(at, tuple) and len(at) == 2 and at[0] in ("nonempty", "truth") and isinstance(at[1], tuple) and at[1] and at[1][0] != "SET":
+            for m_ in all_atoms:
+                if isinstance(m_, tuple) and len(m_) == 3 and m_[0] == "in" and m_[2] == at[1]:
+                    out.append(norm_formula(f_or(f_not(("atom", m_)), ("atom", at))))
+    for at in all_atoms:
         if not (isinstance(at, tuple) and len(at) == 2 and at[0] in ("nonempty", "truth") and isinstance(at[1], tuple) and len(at[1]) == 3 and at[1][0] == "SET"):
             continue
         _h, ats, tb = at[1]
